@@ -720,7 +720,7 @@ func (g *GroupWorld) tick() {
 	g.schedule()
 	g.strayBind()
 	if w.cfg.Actors["operator"] && s.Chance(w.cfg.OperatorP) {
-		g.operatorAction(g.s("op"), "")
+		g.operatorAction(g.s("op"), w.lastTerminateNode[g.name])
 	}
 	w.after(w.cfg.TickEvery, "tick", g.tick)
 }
@@ -1037,7 +1037,7 @@ func (w *World) interleave(c *Call) {
 		return
 	}
 	w.inCall = true
-	prefer := ""
+	prefer := w.lastTerminateNode[g.name] // other writers tend to act on the node in play
 	if c.Op == OpGet || c.Op == OpPut || c.Op == OpDelete {
 		prefer = c.Target
 	}
